@@ -19,6 +19,9 @@
 EXTENDS Verif
 
 MonInit == [bad |-> <<>>, wit |-> {}, saving |-> FALSE,
+            path |-> 0,         \* the path saving currently goes to (0 = none)
+            nrec |-> 0,         \* 1 once a record was appended in this saving session, else 0 (witnesses only)
+            app |-> FALSE,      \* the current file was opened in append mode (witnesses only)
             cfgfail |-> FALSE,  \* an option change was refused while saving, earlier in this history: only used in signatures
             pending |-> {},     \* started while saving was active, not completed, not yet handled by a stop
             stopw |-> {},       \* written at a stop and neither completed nor started again since
@@ -62,7 +65,10 @@ Clause(m, ev) ==
     [] ev.k = "hook" /\ m.saving -> HookClause(m, ev)
     [] ev.k = "stop" /\ m.saving -> StopClause(m, ev)
     [] ev.k \in {"setfile", "setfilter", "setfile_failed"} /\ m.saving ->
-         IF ev.new # <<>> THEN <<"C39.written_outside_completion", ev.k>> ELSE <<>>
+         \* records already appended stay in the file across option changes; only opening ANOTHER path in
+         \* overwrite mode may legitimately empty that other file
+         IF ev.trunc /\ (ev.k # "setfile" \/ ev.path = m.path) THEN <<"C39.records_lost", ev.k>>
+         ELSE IF ev.new # <<>> THEN <<"C39.written_outside_completion", ev.k>> ELSE <<>>
     [] OTHER -> <<>>
 
 WitOf(m, ev) ==
@@ -86,6 +92,8 @@ WitOf(m, ev) ==
     [] ev.k = "setfile_failed" -> IF m.saving THEN {"refused_option_change_while_saving"} ELSE {"refused_option_change"}
     [] ev.k = "setfilter" /\ m.saving ->
          {"filter_change"} \cup (IF m.pending # {} THEN {"filter_change_while_pending"} ELSE {})
+                           \cup (IF m.nrec > 0 THEN {IF m.app THEN "filter_change_after_records_append"
+                                                              ELSE "filter_change_after_records_overwrite"} ELSE {})
     [] OTHER -> {}
 
 MonStep(m, ev) ==
@@ -95,6 +103,9 @@ MonStep(m, ev) ==
     !.bad = Clause(m, ev),
     !.wit = @ \cup WitOf(m, ev),
     !.saving = CASE ev.k = "setfile" -> TRUE [] ev.k = "stop" -> FALSE [] OTHER -> @,
+    !.path = CASE ev.k = "setfile" -> ev.path [] ev.k = "stop" -> 0 [] OTHER -> @,
+    !.app = IF ev.k = "setfile" /\ (~m.saving \/ ev.path # m.path) THEN ev.append ELSE @,
+    !.nrec = CASE ev.k = "stop" -> 0 [] ev.k = "setfile" /\ ~m.saving -> 0 [] OTHER -> IF ev.new # <<>> THEN 1 ELSE @,
     !.cfgfail = @ \/ (ev.k = "setfile_failed" /\ m.saving),
     !.pending = CASE ev.k = "hook" /\ IsStart(ev) /\ m.saving -> @ \cup {ev.f}
                   [] ev.k = "hook" /\ IsCompletion(ev) -> @ \ {ev.f}
